@@ -713,6 +713,33 @@ func c17r4(c *an.Ctx) {
 		if !ok {
 			return true
 		}
+		// the classification is the switch whose cases count arguments and results; other switches (argument
+		// validation) are passed over
+		counts := 0
+		for _, st := range sw.Body.List {
+			for _, e := range st.(*ast.CaseClause).List {
+				src := exprString(e)
+				if strings.Contains(src, ".NumIn()") || strings.Contains(src, ".NumOut()") {
+					counts++
+					break
+				}
+			}
+		}
+		nonDefault := 0
+		for _, st := range sw.Body.List {
+			if len(st.(*ast.CaseClause).List) > 0 {
+				nonDefault++
+			}
+		}
+		if counts < 2 || counts != nonDefault || len(cases) > 0 {
+			// a validation switch may mention NumOut() in one case among others: it is not the classification
+			if !(counts >= 2 && counts == nonDefault) {
+				return true
+			}
+			if len(cases) > 0 {
+				return true
+			}
+		}
 		for _, st := range sw.Body.List {
 			cc := st.(*ast.CaseClause)
 			if len(cc.List) == 0 {
